@@ -48,3 +48,54 @@ func VerifC20NeoFSConfig() {
 			vEq(rec.Key, []byte("InnerRingCandidateFee")) || vEq(rec.Key, []byte("WithdrawFee")), "C20/neofs-listConfig-is-exact")
 	}
 }
+
+// C20 NeoFS configuration store WITHOUT Notary: one setConfig call is a vote, the value is put when 2n/3+1
+// distinct Alphabet nodes voted under one id. param 0: number of Alphabet nodes. The first 2n/3+1 nodes vote
+// v1 in; then ONE node (symbolic, possibly one that voted already) re-uses the id with another value after a
+// symbolic number of blocks (0..25: within and beyond the 20-block life of a ballot). That call is a single
+// vote of a new round, so config / listConfig still return what the accepted vote put.
+func VerifC20NeoFSVotedConfig() {
+	n := vParam(0)
+	deployNeoFS(n, true)
+	threshold := n*2/3 + 1
+	id, key := []byte{0xC0, 1}, []byte("votedKey")
+	v1, v2 := vBytes("v1", 2), vBytes("v2", 2)
+	vAssume(!vEq(v1, v2))
+	for i := 0; i < threshold; i++ {
+		if i == threshold-1 {
+			_, r0 := vRead("neofs", "config", key)
+			vAssert(r0 == nil, "C20/neofs-voted-config-holds-nothing-before-the-vote-is-accepted")
+		}
+		vSign(vAcct(alTags[i]), true)
+		ok, _ := vInvoke("neofs", "setConfig", id, key, v1)
+		vRequire(ok, "alphabet-node-votes")
+		if !ok {
+			return
+		}
+	}
+	_, r := vRead("neofs", "config", key)
+	vRequire(r != nil, "accepted-vote-puts-the-value")
+	vAssert(r != nil && vEq(r.([]byte), v1), "C20/neofs-voted-config-returns-the-accepted-value")
+
+	c, gap := vInt("lateCaller"), vInt("gap")
+	vAssume(c >= 0 && c < n && gap >= 0 && gap <= 25)
+	vAdvance(gap)
+	for i := 0; i < n; i++ {
+		vSign(vAcct(alTags[i]), c == i)
+	}
+	vInvoke("neofs", "setConfig", id, key, v2)
+	_, r = vRead("neofs", "config", key)
+	want := v1
+	if threshold == 1 { // a single Alphabet node: its one vote is the decision
+		want = v2
+	}
+	vAssert(r != nil && vEq(r.([]byte), want), "C20/neofs-voted-config-changes-only-when-a-vote-reaches-the-threshold")
+	_, l := vRead("neofs", "listConfig")
+	recs := l.([]Record)
+	vAssert(len(recs) == 3, "C20/neofs-listConfig-lists-every-key-once")
+	for _, rec := range recs {
+		vAssert((vEq(rec.Key, key) && vEq(rec.Val, want)) || vEq(rec.Key, []byte("InnerRingCandidateFee")) || vEq(rec.Key, []byte("WithdrawFee")),
+			"C20/neofs-listConfig-is-exact")
+	}
+	vCover("late-single-vote-tried")
+}
